@@ -88,8 +88,8 @@ theorem gridPos_length (R C tr tc : Int) (hr : 1 ≤ tr) (hc : 1 ≤ tc) (hR : 1
   have := nTiles_pos C tc hC hc
   rw [max_eq_left (by omega), max_eq_left (by omega)]
 
-/-- the translated z origin of a focal plane (T7e): `(slice_index - 1) · spacing between slices` -/
-theorem tiledFullZOffset_eq (si : Int) (sbs : Rat) : tiledFullZOffset si sbs = .ok (((si - 1 : Int) : Rat) * sbs) := by
+/-- the translated z origin of a focal plane (T7e): origin z + `(slice_index - 1) · spacing between slices` -/
+theorem tiledFullZOffset_eq (si : Int) (sbs z0 : Rat) : tiledFullZOffset si sbs z0 = .ok (z0 + ((si - 1 : Int) : Rat) * sbs) := by
   unfold tiledFullZOffset
   rfl
 
@@ -98,8 +98,8 @@ theorem iterTiledFull_eq (channels : List (Option Int)) (planes tr tc R C : Int)
     (hr : 1 ≤ tr) (hc : 1 ≤ tc) (hR : 1 ≤ R) (hC : 1 ≤ C) :
     iterTiledFull channels planes tr tc R C g sbs =
       .ok ((channels.flatMap (fun ch => (iota planes).map (fun p => (ch, p + 1)))).flatMap
-        (iterChunk tr tc R C g (fun si => ((si - 1 : Int) : Rat) * sbs))) :=
-  iterTiledFull_eq_of channels planes tr tc R C g sbs _ (fun si => tiledFullZOffset_eq si sbs) hr hc hR hC
+        (iterChunk tr tc R C g (fun si => g.oz + ((si - 1 : Int) : Rat) * sbs))) :=
+  iterTiledFull_eq_of channels planes tr tc R C g sbs _ (fun si => tiledFullZOffset_eq si sbs g.oz) hr hc hR hC
 
 /-- **tile count per channel and focal plane**: `iter_tiled_full_frame_data` yields
 `channels · focal planes · ⌈R / tile rows⌉ · ⌈C / tile columns⌉` frames -/
@@ -526,5 +526,119 @@ theorem offsets_cover_once (R C tr tc : Int) (hr : 1 ≤ tr) (hc : 1 ≤ tc) (hR
   rw [List.filter_map, List.length_map] at this ⊢
   exact this
 
+
+/-! ## Frame number of a TILED_FULL image ↔ tile -/
+
+/-- element `a·n + b` of a concatenation of chunks of length `n` is element `b` of chunk `a` -/
+theorem flatMap_getElem_const {β γ} (f : β → List γ) (n : Nat) : ∀ (xs : List β) (a b : Nat) (x : β),
+    (∀ y ∈ xs, (f y).length = n) → b < n → xs[a]? = some x → (xs.flatMap f)[a * n + b]? = (f x)[b]? := by
+  intro xs
+  induction xs with
+  | nil => intro a b x _ _ hx; simp at hx
+  | cons y ys ih =>
+    intro a b x hlen hb hx
+    rw [List.flatMap_cons]
+    cases a with
+    | zero =>
+      simp only [List.getElem?_cons_zero, Option.some.injEq] at hx
+      subst hx
+      rw [Nat.zero_mul, Nat.zero_add, List.getElem?_append_left (by rw [hlen y (by simp)]; exact hb)]
+    | succ a =>
+      simp only [List.getElem?_cons_succ] at hx
+      have e : (a + 1) * n + b = (f y).length + (a * n + b) := by
+        rw [hlen y (by simp), Nat.succ_mul]; omega
+      rw [e, List.getElem?_append_right (by omega)]
+      have : (f y).length + (a * n + b) - (f y).length = a * n + b := by omega
+      rw [this]
+      exact ih a b x (fun z hz => hlen z (by simp [hz])) hb hx
+
+theorem iota_getElem (n : Int) (k : Nat) (hk : (k : Int) < n) : (iota n)[k]? = some (k : Int) := by
+  unfold iota
+  rw [List.getElem?_map, List.getElem?_range (by omega)]
+  rfl
+
+theorem iota_length_nat (n : Int) : (iota n).length = n.toNat := by
+  unfold iota; simp
+
+/-- **frame number ↔ (channel, focal plane, tile row, tile column)**: the position `_get_spatial_information` (hence every
+`*Transformer.for_image(image, frame_number=k)`) reports for frame
+`k = 1 + ((c · planes + p) · ⌈R/tr⌉ + i) · ⌈C/tc⌉ + j` of a TILED_FULL image is the pixel-to-reference transform of the
+offset of tile `(i, j)` in focal plane `p` — the row-major enumeration of every other helper, channels outermost. -/
+theorem framePosition_row_major (channels : List (Option Int)) (planes tr tc R C : Int) (g : Geo) (sbs : Rat)
+    (hr : 1 ≤ tr) (hc : 1 ≤ tc) (hR : 1 ≤ R) (hC : 1 ≤ C)
+    (c p i j : Nat) (ch : Option Int) (hch : channels[c]? = some ch) (hp : (p : Int) < planes)
+    (hi : (i : Int) < nTiles R tr) (hj : (j : Int) < nTiles C tc) :
+    framePosition channels planes tr tc R C g sbs
+        (1 + ((((c * planes.toNat + p) * (nTiles R tr).toNat + i) * (nTiles C tc).toNat + j : Nat) : Int)) =
+      .ok (pixToRef { g with oz := g.oz + (p : Rat) * sbs } ((j : Int) * tc) ((i : Int) * tr)) := by
+  unfold framePosition
+  have hsl : tiledFullFrameSlice (1 + ((((c * planes.toNat + p) * (nTiles R tr).toNat + i) * (nTiles C tc).toNat + j : Nat) : Int)) =
+      .ok (((((c * planes.toNat + p) * (nTiles R tr).toNat + i) * (nTiles C tc).toNat + j : Nat) : Int),
+        1 + ((((c * planes.toNat + p) * (nTiles R tr).toNat + i) * (nTiles C tc).toNat + j : Nat) : Int)) := by
+    unfold tiledFullFrameSlice
+    simp only [Except.ok.injEq, Prod.mk.injEq, and_true]
+    omega
+  rw [hsl]
+  simp only
+  rw [if_neg (by omega), iterTiledFull_eq channels planes tr tc R C g sbs hr hc hR hC]
+  simp only
+  rw [if_neg (by omega), Int.toNat_natCast]
+  -- index arithmetic: ((c·P + p)·NR + i)·NC + j = (c·P + p)·(NR·NC) + (i·NC + j)
+  have hidx : ((c * planes.toNat + p) * (nTiles R tr).toNat + i) * (nTiles C tc).toNat + j =
+      (c * planes.toNat + p) * ((nTiles R tr).toNat * (nTiles C tc).toNat) + (i * (nTiles C tc).toNat + j) := by
+    rw [Nat.add_mul, Nat.mul_assoc]; omega
+  rw [hidx]
+  have hNR : (i : Nat) < (nTiles R tr).toNat := by omega
+  have hNC : (j : Nat) < (nTiles C tc).toNat := by omega
+  have hP : p < planes.toNat := by omega
+  have hinner : i * (nTiles C tc).toNat + j < (nTiles R tr).toNat * (nTiles C tc).toNat := by
+    have : (i + 1) * (nTiles C tc).toNat ≤ (nTiles R tr).toNat * (nTiles C tc).toNat := Nat.mul_le_mul_right _ hNR
+    rw [Nat.succ_mul] at this
+    omega
+  -- the (channel, plane) pair at c·P + p
+  have hchp : (channels.flatMap (fun ch => (iota planes).map (fun p => (ch, p + 1))))[c * planes.toNat + p]? = some (ch, (p : Int) + 1) := by
+    rw [flatMap_getElem_const _ planes.toNat channels c p ch (fun y _ => by rw [List.length_map, iota_length_nat]) hP hch]
+    rw [List.getElem?_map, iota_getElem planes p hp]
+    rfl
+  have hlenchunk : ∀ y ∈ (channels.flatMap (fun ch => (iota planes).map (fun p => (ch, p + 1)))),
+      (iterChunk tr tc R C g (fun si => g.oz + ((si - 1 : Int) : Rat) * sbs) y).length = (nTiles R tr).toNat * (nTiles C tc).toNat := by
+    intro y _
+    rw [chunk_length, List.length_map]
+    unfold gridPos
+    rw [flatMap_const_length _ _ (nTiles C tc).toNat (fun x _ => by rw [List.length_map, iota_length_nat]), iota_length_nat]
+  rw [flatMap_getElem_const _ _ _ _ _ _ hlenchunk hinner hchp]
+  -- inside the chunk: tile (i, j)
+  unfold iterChunk tpOf
+  rw [List.getElem?_map]
+  rw [flatMap_getElem_const _ (nTiles C tc).toNat (iota (nTiles R tr)) i j (i : Int)
+    (fun y _ => by rw [List.length_map, iota_length_nat]) hNC (iota_getElem _ i hi)]
+  rw [List.getElem?_map, iota_getElem _ j hj]
+  have hz : g.oz + ((((p : Int) + 1 - 1 : Int) : Int) : Rat) * sbs = g.oz + (p : Rat) * sbs := by
+    have : ((p : Int) + 1 - 1 : Int) = (p : Int) := by omega
+    rw [this]; push_cast; rfl
+  simp only [Option.map_some, hz]
+
+
+/-- frame numbers outside `1 .. number of frames` are refused -/
+theorem framePosition_out_of_range (channels : List (Option Int)) (planes tr tc R C : Int) (g : Geo) (sbs : Rat)
+    (hr : 1 ≤ tr) (hc : 1 ≤ tc) (hR : 1 ≤ R) (hC : 1 ≤ C) (hp : 0 ≤ planes) (k : Int)
+    (hk : k < 1 ∨ (channels.length : Int) * planes * (nTiles R tr * nTiles C tc) < k) :
+    ∃ e, framePosition channels planes tr tc R C g sbs k = .error e := by
+  unfold framePosition
+  have hsl : tiledFullFrameSlice k = .ok (k - 1, k) := by unfold tiledFullFrameSlice; rfl
+  rw [hsl]
+  simp only
+  by_cases h0 : k - 1 < 0 ∨ k < 0
+  · rw [if_pos h0]; exact ⟨_, rfl⟩
+  · rw [if_neg h0]
+    obtain ⟨l, hl, hlen⟩ := iterTiledFull_length channels planes tr tc R C g sbs hr hc hR hC hp
+    rw [hl]
+    simp only
+    rw [if_neg (by omega)]
+    have : l[(k - 1).toNat]? = none := by
+      rw [List.getElem?_eq_none_iff]
+      omega
+    rw [this]
+    exact ⟨_, rfl⟩
 
 end HdVerif.TilingLemmas
